@@ -154,6 +154,8 @@ def result_trees(B, md, res):
         seq = [res]
     else:
         seq = list(res) if res is not None else [None] * len(rets)
+        if len(seq) != len(rets):
+            raise ValueError('%d values for %d declared return values' % (len(seq), len(rets)))
     out = []
     for t, o in zip(rets, seq):
         if isinstance(o, types.GeneratorType):
@@ -248,12 +250,18 @@ def run_universe(R, seed, uid, tier):
                     rets = [fill_defaulted(ir, t, v, rng) for t, v in zip(md['returns'], rets)]
                     R.count('calls_in_universes_with_defaults')
                 outcome = rng.choice(('ok', 'ok', 'ok', 'fault', 'ignored', 'generator'))
+                if outcome == 'ok' and len(md['returns']) > 1 and rng.random() < .3:
+                    # several return values declared, and the function has nothing to say: a bare None stands for a null each
+                    outcome = 'nothing'
+                    rets = [None] * len(md['returns'])
                 repro = {'seed': seed, 'uid': uid, 'method': md['name'], 'call': k, 'outcome': outcome, 'style': md['style']}
                 builds = [Bn] + [w['B'] for w in wires.values()]
                 for B in builds:
                     B.raises.pop(md['name'], None)
                     sp = [B.to_spyne(t, v) for t, v in zip(md['returns'], rets)]
                     val = sp[0] if len(sp) == 1 else (tuple(sp) if sp else None)
+                    if outcome == 'nothing':
+                        val = None
                     if outcome == 'fault':
                         B.raises[md['name']] = Fault('Client.Generated.%d' % k, 'raised %d' % k)
                     elif outcome == 'ignored':
